@@ -1,8 +1,10 @@
 package props
 
 import (
+	"context"
 	"fmt"
 	"math"
+	"sync/atomic"
 	"time"
 
 	bigbuff "github.com/joeycumines/go-bigbuff"
@@ -18,7 +20,8 @@ func init() {
 		Rule: "cleaner-fn: DefaultCleaner and FixedBufferCleaner(max,target) compared with an independent reference on every size<=6, every multiset of <=3 offsets in [-2,size+2], every max,target in [-1,7] (complete), plus random large inputs incl. MinInt/MaxInt; " +
 			"seq: random sequential programs (Put/NewConsumer/Get/Commit/Rollback/Close/Slice/Size/Diff) on a cooldown-0 Buffer under Default/Fixed cleaners (grid incl. target 0, target=max, target>max, negative target) compared step by step with the eager-cleaner sequential model (exact offset, size, Get/Diff/Slice results, sticky 'past' errors); " +
 			"long: concurrent runs with the cleaner wrapped by an online monitor (reference result, never evict beyond the smallest committed offset, nothing without consumers), VerifSnapshot invariants, over-asking/under-asking custom cleaners (clamp); " +
-			"short: porcupine against the model with forced trims. non-trivial = at least one eviction or one 'past' error was observed; distinct = distinct traces/signatures",
+			"short: porcupine against the model with forced trims. membership-change-during-cleaner-evaluation: a pass-through default cleaner holds open the evaluation that is about to report a shift while the only committed consumer closes and a new consumer is created (and the other orders): the newcomer has committed nothing, so every value from its start on must still be readable. " +
+			"slice-is-a-copy: what Slice returned is overwritten and appended to by its caller (open buffer, after evictions, after Close): the next Slice still equals the retained suffix. non-trivial = at least one eviction or one 'past' error was observed; distinct = distinct traces/signatures",
 		Assumptions: []string{
 			"the cleaner is configured before the first operation (a cleaner installed after the last state change is not applied until the next change: out of scope, DESIGN.md §6)",
 			"the sequential family waits (bounded) for the asynchronous cleaner to reach its fixpoint before the next operation; a cleaner that never gets there is C04's subject and is counted as lagging here",
@@ -28,6 +31,8 @@ func init() {
 			{Name: "seq-model", N: core.TierN(2000, 120000), Batch: 100, Run: c03Seq},
 			{Name: "long-retention", N: core.TierN(120, 4800), Batch: 5, Run: c03Long},
 			{Name: "short-fixed-porcupine", N: core.TierN(800, 48000), Batch: 60, Run: c03Short},
+			{Name: "membership-change-during-cleaner-evaluation", N: core.TierN(80, 3200), Batch: 20, Run: c03MembershipDuringCleaner},
+			{Name: "slice-is-a-copy", N: core.TierN(60, 2400), Batch: 30, Run: c03SliceCopy},
 		},
 	})
 }
@@ -236,4 +241,161 @@ func c03Short(c *core.Ctx) {
 	}
 	c.Count("past_errors", past)
 	_ = fmt.Sprint
+}
+
+// c03MembershipDuringCleaner: the consumers change while the cleaner function is being evaluated. The evaluation that
+// is about to report "shift k" (computed from consumer X's committed offset) is held open; X closes and Y is created
+// meanwhile (or just Y is created, or Y first and then X closes). Whatever the library does about the stale result, Y is
+// an open consumer that has committed nothing: nothing from its start on may have been evicted.
+func c03MembershipDuringCleaner(c *core.Ctx) {
+	cooldown := core.Pick(c.Rng, 0, 0, 300*time.Microsecond)
+	order := core.Pick(c.Rng, "close-then-create", "close-then-create", "create-then-close", "create-only")
+	n := 4 + c.Rng.IntN(8)
+	k := 1 + c.Rng.IntN(n-1)
+	gate := core.NewGate()
+	var armed atomic.Bool
+	b := newBuffer(cleanerSpec{}, cooldown, func(inner bigbuff.Cleaner) bigbuff.Cleaner {
+		return func(size int, offsets []int) int {
+			shift := inner(size, append([]int(nil), offsets...))
+			if shift > 0 && armed.CompareAndSwap(true, false) {
+				gate.Enter(1000) // the result is in hand, not yet applied
+			}
+			return shift
+		}
+	})
+	defer b.Close()
+	x, err := b.NewConsumer()
+	if err != nil {
+		c.Violate("newconsumer-error", "%v", err)
+		return
+	}
+	vals := make([]interface{}, n)
+	for i := range vals {
+		vals[i] = i
+	}
+	b.Put(context.Background(), vals...)
+	for i := 0; i < k; i++ {
+		if _, err := x.Get(context.Background()); err != nil {
+			c.Violate("get-error", "%v", err)
+			return
+		}
+	}
+	time.Sleep(cooldown*2 + 100*time.Microsecond)
+	armed.Store(true)
+	x.Commit() // wakes the cleaner: its evaluation (shift k) is held open
+	window := gate.WaitArrived(3000)
+	var y bigbuff.Consumer
+	var yerr error
+	changed := core.Go(func() {
+		switch order {
+		case "close-then-create":
+			x.Close()
+			y, yerr = b.NewConsumer()
+		case "create-then-close":
+			y, yerr = b.NewConsumer()
+			x.Close()
+		default:
+			y, yerr = b.NewConsumer()
+		}
+	})
+	time.Sleep(time.Duration(100+c.Rng.IntN(300)) * time.Microsecond)
+	gate.Release()
+	desc := fmt.Sprintf("n=%d, X committed %d, %s while the cleaner's evaluation (shift %d) was held open (window entered: %v), cooldown %s", n, k, order, k, window, cooldown)
+	if !core.AwaitDone(changed, 10000) {
+		c.Violate("membership-blocked", "closing / creating consumers did not complete; %s", desc)
+		c.SetDump(core.DumpAll())
+		return
+	}
+	if yerr != nil {
+		c.Violate("newconsumer-error", "%v; %s", yerr, desc)
+		return
+	}
+	defer y.Rollback()
+	if order == "create-only" {
+		defer x.Rollback()
+	}
+	time.Sleep(cooldown*2 + 200*time.Microsecond) // let the pass finish
+	// Y has committed nothing: everything from its start to the end is readable, its lag never exceeds Size
+	d, ok := b.Diff(y)
+	if sz := b.Size(); !ok || d > sz {
+		c.Violate("unread-evicted", "Diff(Y)=(%d,%v) exceeds Size()=%d right after Y was created: values Y has not read (let alone committed) were evicted; %s", d, ok, sz, desc)
+	}
+	var got []int
+	for i := 0; i < d; i++ {
+		v, err := y.Get(context.Background())
+		if err != nil {
+			c.Violate("unread-evicted", "Y, an open consumer that committed nothing, got %v from Get #%d; %s", err, i, desc)
+			return
+		}
+		m, _ := v.(int)
+		got = append(got, m)
+	}
+	for i := range got {
+		if got[i] != n-len(got)+i {
+			c.Violate("wrong-value", "Y read %v, want the last %d values of 0..%d in order; %s", got, len(got), n-1, desc)
+			break
+		}
+	}
+	c.Op("get", k+len(got))
+	if window {
+		c.Nontrivial()
+		c.R.WinHit++
+	} else {
+		c.R.WinMissed++
+	}
+	c.Sig("membership", order, cooldown, window, len(got))
+}
+
+// c03SliceCopy: the slice Slice returns is the caller's: overwriting it and appending to it changes nothing in the
+// buffer. Checked on an open buffer, after evictions and after Close.
+func c03SliceCopy(c *core.Ctx) {
+	cs := pickCleanerSpec(c)
+	b := newBuffer(cs, core.Pick(c.Rng, 0, 100*time.Microsecond), nil)
+	cons, _ := b.NewConsumer()
+	n := 1 + c.Rng.IntN(10)
+	for i := 0; i < n; i++ {
+		b.Put(context.Background(), i)
+	}
+	reads := c.Rng.IntN(n + 1)
+	for i := 0; i < reads; i++ {
+		if _, err := cons.Get(context.Background()); err != nil {
+			break
+		}
+	}
+	if c.Rng.IntN(2) == 0 {
+		cons.Commit()
+	} else {
+		cons.Rollback()
+	}
+	time.Sleep(300 * time.Microsecond) // evictions, if any, happen now
+	closed := c.Rng.IntN(2) == 0
+	if closed {
+		cons.Close()
+		if !core.AwaitDone(core.Go(func() { b.Close() }), 10000) {
+			c.Violate("close-blocked", "Buffer.Close did not return")
+			return
+		}
+	} else {
+		defer b.Close()
+		defer cons.Rollback()
+	}
+	for round := 0; round < 3; round++ {
+		s1 := b.Slice()
+		want := fmt.Sprint(s1)
+		if len(s1) != b.Size() {
+			c.Violate("slice-vs-size", "Slice has %d values, Size()=%d (closed=%v)", len(s1), b.Size(), closed)
+		}
+		for i := range s1 {
+			s1[i] = "overwritten by the caller"
+		}
+		s1 = append(s1, "appended by the caller")
+		_ = s1
+		if got := fmt.Sprint(b.Slice()); got != want {
+			c.Violate("slice-not-a-copy", "Slice returned %s, its caller modified that slice, and the next Slice returned %s (closed=%v, %s)", want, got, closed, cs)
+			break
+		}
+	}
+	c.Op("slice", 6)
+	c.Nontrivial()
+	c.Sig("slice-copy", cs.String(), n, reads, closed)
 }
